@@ -153,6 +153,21 @@ func (w *world) top() (map[string]*sg.Mod, []*sg.Node) {
 	return owner, tops
 }
 
+// member picks a value of the space; half of the time it tries values first that need escaping when they appear as
+// an element of a path string ('/', ':', blank, '%', non-ASCII, an already escaped sequence).
+func member(g *sg.G, sp *vt.Space) (string, bool) {
+	if g.Chance(1, 2, "special") {
+		specials := []string{"a/b", "a:b", "a b", "5%", "/", "é/ü", "a%2Fb", "..", "x/y/z", "%", "#?&"}
+		off := g.Pick(len(specials), "specialoff")
+		for i := range specials {
+			if c := specials[(i+off)%len(specials)]; sp.Contains(c) {
+				return c, true
+			}
+		}
+	}
+	return sg.MemberOf(sp)
+}
+
 // randomPath walks the inlined model and returns a complete valid path (as far as member values can be found).
 func randomPath(g *sg.G, w *world) []string {
 	owners, tops := w.top()
@@ -185,7 +200,7 @@ func randomPath(g *sg.G, w *world) []string {
 			if !ok {
 				return toks
 			}
-			v, ok := sg.MemberOf(sp)
+			v, ok := member(g, sp)
 			if !ok {
 				return toks
 			}
@@ -198,7 +213,7 @@ func randomPath(g *sg.G, w *world) []string {
 		default:
 			sp, ok := w.space(owner, n)
 			if ok {
-				if v, ok := sg.MemberOf(sp); ok {
+				if v, ok := member(g, sp); ok {
 					toks = append(toks, v)
 				}
 			}
